@@ -95,6 +95,18 @@ func (x *c10World) universe() []common.Address {
 	return out
 }
 
+// ctxClass is the part of a signature that says whether a restart is involved: the party
+// itself (miner, validator A, validator B, store) is named in the message only.
+func ctxClass(who string) string {
+	switch who {
+	case "restarted-clean", "store-reopened":
+		return "/after-restart"
+	case "restarted-crash":
+		return "/after-crash"
+	}
+	return ""
+}
+
 // classifyTop names the way a published list deviates from the expected one.
 func classifyTop(got, exp []candVotes, state StateDump, max int) string {
 	if len(got) > max {
@@ -151,7 +163,7 @@ func (x *c10World) checkTop(who string, tag int, db *store.ChainDatabase, b *typ
 		got = topOf(db.GetCandidatesTop(b.Hash()))
 	})
 	if !t.Finished {
-		c.Fail("C10/top-list/unreadable/"+who, "reading the top list of block %d/%s on %s did not finish (panic: %v)\n%s", b.Height(), b.Hash().Hex()[:10], who, t.Panic, trimStack(t.PanicStack))
+		c.Fail("C10/top-list/unreadable"+ctxClass(who), "reading the top list of block %d/%s on %s did not finish (panic: %v)\n%s", b.Height(), b.Hash().Hex()[:10], who, t.Panic, trimStack(t.PanicStack))
 		return false
 	}
 	max := x.net.P.MaxCandidates
@@ -177,7 +189,7 @@ func (x *c10World) checkTop(who string, tag int, db *store.ChainDatabase, b *typ
 		return true
 	}
 	class := classifyTop(got, exp, state, max)
-	c.Fail("C10/top-list/"+class+"/"+who, "block %d/%s (parent %s) on %s: published top list %s; all registered candidates of that block's account state sorted by votes desc, address asc, cut to %d: %s; registered candidates in state: %d; txs: %v; %s",
+	c.Fail("C10/top-list/"+class+ctxClass(who), "block %d/%s (parent %s) on %s: published top list %s; all registered candidates of that block's account state sorted by votes desc, address asc, cut to %d: %s; registered candidates in state: %d; txs: %v; %s",
 		b.Height(), b.Hash().Hex()[:10], b.ParentHash().Hex()[:10], who, topString(got), max, topString(exp), reg, txsSummary(b.Txs), x.story())
 	return false
 }
@@ -437,7 +449,7 @@ func c10Chain(c *Ctx) {
 				if ierr != nil {
 					why := classifyRejection(takeErrors(nd.Tag))
 					if strings.Contains(strings.ToLower(why), "deputy") {
-						c.Fail("C10/snapshot-block-rejected/"+why+"/"+who, "%s rejects snapshot block %d of the honest miner (%v, reason %s); %s", who, blk.Height(), ierr, why, x.story())
+						c.Fail("C10/snapshot-block-rejected/"+why+ctxClass(who), "%s rejects snapshot block %d of the honest miner (%v, reason %s); %s", who, blk.Height(), ierr, why, x.story())
 						return false
 					}
 					// other rejections are C01's business
